@@ -19,12 +19,17 @@ Each site is (file, enclosing function, container type) + a tag read off the loo
                   of the printed strings)
   OTSingleton     begin() used where the container is known to hold exactly one entry (size() == 1 tested first)
   OTAllPlainOnly  an all-test whose per-entry comparison can throw for a commoditized argument: order-free only against an
-                  uncommoditized number (theorem balance_ordering_against_plain_number_order_free); see finding F-C19-cmp
-  OTFirstEntry    begin() of a container of several entries used as THE answer (order dependent: finding)
+                  uncommoditized number (finding F190, repaired: the shape is gone from the source and no longer accepted)
+  OTFirstEntry    begin() of a container of several entries used as THE answer (order dependent: finding F191, repaired;
+                  no longer accepted)
   OTArgmaxTies    std::max_element over the address-ordered map with a comparator on the mapped value: ties are decided by
                   address order (order dependent: candidate finding)
   OTDebugDump     balance_t::dump / DEBUG-only listing: printed in table order, next to object addresses, debug output only
   OTUnknown       anything else  (no theorem accepts it)
+Sorted walks: every local `amounts_array NAME;` (container "amounts_array") is a site as well: OTSorted while NAME is filled
+by the call `sorted_amounts(NAME);` that follows its declaration and is otherwise only read (foreach / empty() / *front());
+anything else OTUnknown.  value_t::is_less_than, is_greater_than (F190) and top_amount (F191) are such walks since /repo
+55e6d28 / 195dbe5; their former shapes would still come out as OTAllPlainOnly / OTFirstEntry, which no theorem accepts now.
 Properties_C19.v requires the regenerated list to equal, site by site, the list Proofs/OrderSitesProofs.v covers and to
 contain no OTUnknown: a new iteration, a removed sort or a changed loop body breaks a proof obligation."""
 import os, re
@@ -336,6 +341,24 @@ def generate(repo):
                 else:
                     tag = 'OTUnknown'
             sites.append((f, fn, cont, tag))
+    # ---- walks over the SORTED entries of a balance: a local `amounts_array NAME;` (a vector of pointers into the table).
+    # The order of NAME is a function of the table's contents only while NAME is filled by balance_t::sorted_amounts (itself
+    # the OTSorted site of balance.cc) and by nothing else: every occurrence of NAME in the function must be its
+    # declaration, the call `sorted_amounts(NAME);` right after it, or a read (foreach over it, empty(), *front()).
+    for f in files:
+        t = texts[f]
+        for m in re.finditer(r'(?<![\w:])(?:balance_t::)?amounts_array\s+(\w+)\s*;', t):
+            name = m.group(1)
+            fn, b0, b1 = enclosing_function(t, m.start())
+            body = norm(t[b0:b1 + 1])
+            allowed = [r'(?:balance_t::)?amounts_array %s; (?:[\w.]+(?:\(\))?\.)*sorted_amounts\(%s\);' % (name, name),
+                       r'foreach \(const amount_t \* amount, %s\)' % name,
+                       r'%s\.empty\(\)' % name,
+                       r'\*%s\.front\(\)' % name]
+            total = len(re.findall(r'\b%s\b' % name, body))
+            good = sum(len(re.findall(a, body)) * k for a, k in zip(allowed, (2, 1, 1, 1)))
+            filled = len(re.findall(allowed[0], body)) == 1
+            sites.append((f, fn, 'amounts_array', 'OTSorted' if filled and total == good else 'OTUnknown'))
     sites.sort()
     tags = ['OTElementwise', 'OTCommutative', 'OTExistence', 'OTUniqueMatch', 'OTSorted', 'OTSingleton', 'OTAllPlainOnly',
             'OTFirstEntry', 'OTArgmaxTies', 'OTDebugDump', 'OTUnknown']
